@@ -33,7 +33,7 @@ func unhx(s string) (string, error) {
 	return string(b), err
 }
 
-func b01(b bool) string {
+func mvalB01(b bool) string {
 	if b {
 		return "1"
 	}
@@ -48,13 +48,13 @@ func f64bits(f float64) uint64 {
 }
 
 func fmtMulti(m *playlist.Multivariant) string {
-	w := []string{"v=" + strconv.Itoa(m.Version), "is=" + b01(m.IndependentSegments)}
+	w := []string{"v=" + strconv.Itoa(m.Version), "is=" + mvalB01(m.IndependentSegments)}
 	if m.Start != nil {
 		w = append(w, "st="+strconv.FormatInt(int64(m.Start.TimeOffset), 10))
 	}
 	for _, r := range m.Renditions {
 		w = append(w, "R", "t="+hx(string(r.Type)), "g="+hx(r.GroupID), "n="+hx(r.Name), "l="+hx(r.Language),
-			"a="+b01(r.Autoselect), "d="+b01(r.Default), "f="+b01(r.Forced))
+			"a="+mvalB01(r.Autoselect), "d="+mvalB01(r.Default), "f="+mvalB01(r.Forced))
 		if r.Channels != nil {
 			w = append(w, "ch="+hx(*r.Channels))
 		}
